@@ -659,6 +659,9 @@ func (b *builder) wireScenario(i int) *scenario {
 		}
 		sc.callers = append(sc.callers, calls)
 	}
+	if i%5 == 4 {
+		sc.closeAt = time.Duration(500+r.Intn(4000)) * time.Microsecond // Close while requests are on the wire
+	}
 	// leader moves after a few produce requests, on random partitions
 	nm := 1 + r.Intn(3)
 	for k := 0; k < nm; k++ {
